@@ -922,3 +922,18 @@ def carries(f, expr, call_ids, depth=0):
             if defs and all(d['kind'] in ('init', '=') and d['rhs'] is not None and carries(f, d['rhs'], ids, depth + 1) for d in defs):
                 return True
     return False
+
+
+def const_of(f, e, depth=0):
+    """the compile-time value of an expression: folded by the compiler, or a local that has exactly one definition, its initialiser, with such a value; None otherwise"""
+    from . import rd
+    x = f.s(f.strip_casts(e))
+    if x is None:
+        return None
+    if x.get('cv') is not None:
+        return x['cv']
+    if depth < 3 and x['k'] == 'DeclRefExpr' and x.get('dk') == 'Var':
+        defs = rd.local_defs(f, x['d'])
+        if len(defs) == 1 and defs[0]['kind'] == 'init' and defs[0]['rhs'] is not None:
+            return const_of(f, defs[0]['rhs'], depth + 1)
+    return None
